@@ -281,7 +281,13 @@ def v_headers_after_end_stream(c):
     if c.ch.bool():
         _ = c.ep.c.open_inbound_streams, c.ep.c.open_outbound_streams   # public properties; trigger clean-up
     hs = RESP if c.client else REQ
-    return wire.headers(c.ended_sid, c.enc.encode(hs), end_stream=c.ch.bool())
+    if c.client and c.ch.chance(80):
+        hs = [(b':status', c.ch.pick([b'100', b'103']))]      # an informational block is no different
+    elif c.ch.chance(40):
+        hs = [(b'x-trailer', b'1')]
+    # (a 1xx block with END_STREAM would be malformed in its own right: PROTOCOL_ERROR would be as good an answer)
+    es = c.ch.bool() and hs[0][1][:1] != b'1'
+    return wire.headers(c.ended_sid, c.enc.encode(hs), end_stream=es)
 
 
 VIOLATIONS = [
@@ -325,7 +331,7 @@ def valid_prefix(ch, client):
         for i in range(n):
             sid = 1 + 2 * i
             ep.call('send_headers', sid, POST)
-            kind = ch.int(0, 4)
+            kind = ch.int(0, 5)
             steps.append((sid, kind))
             if kind == 0:
                 open_sid = sid                      # awaiting response
@@ -343,6 +349,11 @@ def valid_prefix(ch, client):
                     steps.append((next_push, 'pushed-and-ended'))
                 next_push += 2
                 open_sid = sid
+            elif kind == 5:
+                # request and response both complete: closed by END_STREAM in both directions
+                ep.call('end_stream', sid)
+                ep.recv(wire.headers(sid, enc.encode(RESP), end_stream=True))
+                steps.append((sid, 'pushed-and-ended'))     # (same category: ended normally, not reset)
             else:
                 ep.recv(wire.rst_stream(sid, 8))
         next_sid = 1 + 2 * n
